@@ -48,7 +48,12 @@ def cached_keys(h):
 def cache_half(out, tier):
     n = 20 if tier == "quick" else 400
     feats = dict(hc.CLEAN); feats.update({"fail": True, "check": False})
-    plans = [("keep-going", plan(feats, False))] * n + [("fail-fast", plan(feats, True))] * (n // 2)
+    def wb(h, r):
+        # failing output check AFTER execution although the pre-execution check passed (cause 4 of the property)
+        import c14
+        c14.witness_break()(h, r)
+        return [("contain", 1), ("retry", 2)]
+    plans = [("witness-break-check", wb)] + [("keep-going", plan(feats, False))] * n + [("fail-fast", plan(feats, True))] * (n // 2)
     batch = hc.run_batch(plans, vlib.seed() + 5)
     hc.check_plan_errors(batch)
     findings = {f["class"]: f for f in vlib.known_findings("C05")}
